@@ -3,5 +3,6 @@
 pub mod core;
 pub mod hooks;
 pub mod pgen;
+pub mod srv;
 pub mod util;
 pub mod props;
